@@ -10,7 +10,8 @@
                                        prog_get_relation), AscentConfig::new, get_ds_attr, ds on a lattice
      ascent_macro/src/ascent_mir.rs    compile_hir_to_mir ("cannot be stratified")
      ascent_macro/src/ascent_codegen.rs the two `unwrap`s of compile_mir_rule_inner / clause_var_assignments that can
-                                       fail (explicit Panic result)
+                                       fail (explicit Panic result; the first is unreachable since the check of
+                                       commit 9b40028, proved in CheckProofs.v)
 
    What is abstracted: Rust expressions are opaque (only "is the argument a plain identifier" and the free variables of
    an expression argument matter to the checks); column types are names; a macro body mentions only its parameters
@@ -134,6 +135,7 @@ Inductive err :=
 | EUndeclared (rel : nat)            (* "relation `r` is not defined" *)
 | EArity (rel expected found : nat)  (* "wrong arity for relation `r` (expected e, found f)" *)
 | EShadow (x : ident)                (* "`x` shadows another variable with the same name" *)
+| EAggVar (x : ident) (rel : nat)    (* "aggregated variable `x` is not an argument of relation `r`" (since 9b40028) *)
 | EUnknownAttr                       (* "unrecognized attribute. recognized attributes are: .." *)
 | EInterRuleSerial                   (* "attribute only allowed in parallel Ascent" *)
 | EMultipleDsProg                    (* "multiple `ds` attributes specified" (program level) *)
@@ -341,7 +343,10 @@ Definition ds_item (st : list ident * counters) (it : sitem ident) : citem * (li
   match it with
   | SClause rel args conds =>
       let r := ds_args (fst st) [] (snd st) args in
-      (CClause rel (fst r) (pat_conds args ++ map cond_binds conds), (fst st ++ fst (snd r), snd (snd r)))
+      (* since fd71eb0 the variables bound by the conditions attached to the clause (incl. the desugared pattern
+         arguments) are grounded for the items that follow *)
+      (CClause rel (fst r) (pat_conds args ++ map cond_binds conds),
+       (fst st ++ fst (snd r) ++ concat (pat_conds args ++ map cond_binds conds), snd (snd r)))
   | SNeg rel n => (CAgg [] [] rel (repeat GExp n), st)
   | SAgg pat bound rel args => (CAgg pat bound rel args, (fst st ++ pat, snd st))
   | SCond c => (CBind (cond_binds c), (fst st ++ cond_binds c, snd st))
@@ -366,14 +371,20 @@ Fixpoint ds_rules (cnt : counters) (rs : list xrule) : list crule :=
 Inductive event :=
 | EvJoin (x : ident)             (* identifier argument of a body clause: binds when new, joins otherwise *)
 | EvBind (x : ident)             (* extend_grounded_vars: must be new *)
-| EvRel (rel nargs : nat).       (* prog_get_relation *)
+| EvRel (rel nargs : nat)        (* prog_get_relation *)
+| EvAggMissing (x : ident) (rel : nat).  (* aggregated variable x that is not an argument of the aggregated relation *)
+
+Definition is_gvar (b : ident) (a : aarg ident) : bool := match a with GVar x => ident_eqb x b | _ => false end.
+(* the aggregated variables that do not occur among the arguments of the aggregated relation *)
+Definition agg_missing (bound : list ident) (args : list (aarg ident)) : list ident :=
+  filter (fun b => negb (existsb (is_gvar b) args)) bound.
 
 Definition cvars (args : list carg) : list ident := flat_map (fun a => match a with KVar x => [x] | _ => [] end) args.
 
 Definition item_events (it : citem) : list event :=
   match it with
   | CClause rel args cb => map EvJoin (cvars args) ++ EvRel rel (length args) :: map EvBind (concat cb)
-  | CAgg pat _ rel args => map EvBind pat ++ [EvRel rel (length args)]
+  | CAgg pat bound rel args => map EvBind pat ++ EvRel rel (length args) :: map (fun b => EvAggMissing b rel) (agg_missing bound args)
   | CBind bs => map EvBind bs
   end.
 
@@ -388,7 +399,7 @@ Fixpoint lookup_rel (ds : list decl) (r : nat) : option decl :=
   end.
 
 Definition event_vars (evs : list event) : list ident :=
-  flat_map (fun e => match e with EvJoin x => [x] | EvBind x => [x] | EvRel _ _ => [] end) evs.
+  flat_map (fun e => match e with EvJoin x => [x] | EvBind x => [x] | EvRel _ _ => [] | EvAggMissing _ _ => [] end) evs.
 
 (* [g]: grounded_vars; ri, ei: rule and event index *)
 Fixpoint scan_events (ds : list decl) (ri ei : nat) (g : list ident) (evs : list event) : result unit :=
@@ -401,6 +412,7 @@ Fixpoint scan_events (ds : list decl) (ri ei : nat) (g : list ident) (evs : list
       | None => Err (EUndeclared r) (3, ri, ei)
       | Some d => if length (d_tys d) =? n then scan_events ds ri (S ei) g tl else Err (EArity r (length (d_tys d)) n) (3, ri, ei)
       end
+  | EvAggMissing x r :: _ => Err (EAggVar x r) (3, ri, ei)
   end.
 
 Definition check_rules (ds : list decl) (rs : list crule) : result unit :=
@@ -504,15 +516,13 @@ Fixpoint dup_new (pre earlier : list ident) (args : list carg) : bool :=
   | _ :: tl => dup_new pre earlier tl
   end.
 
-Definition is_gvar (b : ident) (a : aarg ident) : bool := match a with GVar x => ident_eqb x b | _ => false end.
-
 Definition is_lattice (ds : list decl) (rel : nat) : bool :=
   match lookup_rel ds rel with Some d => d_lat d | None => false end.
 
 Definition item_panics (ds : list decl) (pre : list ident) (it : citem) : bool :=
   match it with
   | CClause rel args _ => negb (is_lattice ds rel) && dup_new pre [] args
-  | CAgg _ bound _ args => existsb (fun b => negb (existsb (is_gvar b) args)) bound
+  | CAgg _ bound _ args => negb (length (agg_missing bound args) =? 0)   (* the unwrap of compile_mir_rule_inner; guarded by the rule stage since 9b40028 *)
   | CBind _ => false
   end.
 
